@@ -716,3 +716,53 @@ Definition check_obs (fuel : nat) (s : fspec) (t0 : tree) (x : item) (oerr : opt
 (* the intact file reads back as its content *)
 Definition intact_ok (fuel : nat) (s : fspec) : bool :=
   match load fuel G (layout s) with Ok t => tree_eqb t (abs s) | Err _ => false end.
+
+(* ------------------------------------------------------------------ well-formed specifications (what the library writes) *)
+Definition key_of (t : etree) : N * ekind := (et_uid t, et_kind t).
+Definition child_keys (t : etree) : list (N * ekind) :=
+  flat_map (fun ck => map (fun c => (et_uid c, ck)) (kids_of_kind t ck)) (et_conts t).
+Definition uids (t : etree) : list N := map et_uid (subtrees t).
+
+Fixpoint nodupN (l : list N) : bool := match l with [] => true | x :: r => negb (memN x r) && nodupN r end.
+Definition nk_eqb (a b : N * ekind) : bool := N.eqb (fst a) (fst b) && ekind_eqb (snd a) (snd b).
+
+Definition dset_key_ok (k : ekind) (d : key) : bool :=
+  match d with
+  | KN _ => true
+  | KDatas => match k with KData => true | _ => false end
+  | _ => false
+  end.
+Fixpoint nodup_keys {V} (l : list (key * V)) : bool :=
+  match l with [] => true | (k, _) :: r => negb (has_key k r) && nodup_keys r end.
+
+Definition type_ok (s : fspec) (t : etree) : bool :=
+  match lookupN (et_ty t) (fs_types s (et_kind t)) with
+  | None => false
+  | Some ts =>
+      match et_kind t with
+      | KGroup => has_key KID (ts_attrs ts)
+      | KData => has_key KPrim (ts_attrs ts)
+      | KObject => match lookup KID (ts_attrs ts) with
+                   | Some (VStr c) => match class_name_first c object_classes with
+                                      | Some b => b || has_key KName (et_attrs t)
+                                      | None => false
+                                      end
+                   | _ => false
+                   end
+      end
+  end.
+
+Definition ent_ok (s : fspec) (t : etree) : bool :=
+  option_eqb aval_eqb (lookup KID (et_attrs t)) (Some (VUid (et_uid t)))
+  && list_eqb nk_eqb (child_keys t) (map key_of (et_kids t))
+  && (match et_kind t with KData => match et_kids t, et_conts t with [], [] => true | _, _ => false end | _ => true end)
+  && (match et_kind t, et_pgs t with KObject, _ => true | _, None => true | _, Some _ => false end)
+  && forallb (fun d : key * N => dset_key_ok (et_kind t) (fst d)) (et_dsets t)
+  && nodup_keys (et_dsets t)
+  && type_ok s t.
+
+Definition wfb (s : fspec) : bool :=
+  nodupN (uids (fs_root s))
+  && ekind_eqb (et_kind (fs_root s)) KGroup
+  && forallb (ent_ok s) (subtrees (fs_root s)).
+Definition wf (s : fspec) : Prop := wfb s = true.
